@@ -235,8 +235,6 @@ def run_check(prop, args, runner, make_case, runs, rule, nontrivial, components,
     again = run_pool(runner, make_case, seed, dr_idx, extra_cases, nontrivial, max(1, (args["workers"] or common.NCPU) // 2 - 1))
     first = {r["index"]: r["hash"] for r in results}
     divergent = [r["index"] for r in again if "hash" in r and first.get(r["index"]) != r["hash"]]
-    if divergent:
-        raise HarnessError("determinism self-check failed for run indices %s" % divergent[:10])
     wall = time.time() - t0
     # aggregate
     probes, faults, classes, configs = {}, {}, {}, {}
@@ -289,9 +287,10 @@ def run_check(prop, args, runner, make_case, runs, rule, nontrivial, components,
         if per_class[c] > 2:
             continue
         path = common.save_replay(prop, "%s-%s-%s" % (c, seed, v["run_index"]), v)
-        if not v.get("replay_stable", False):
-            raise HarnessError("violation %s (run %s) did not replay identically: %s" % (c, v["run_index"], path))
         print("VIOLATION property=%s replay=%s" % (prop, path))
+        if not v.get("replay_stable", False):
+            print("  note: this run did not replay identically -- the system under test does not behave "
+                  "deterministically under this schedule (its outcome depends on something the simulator does not control)")
         print("  class=%s detail=%s" % (c, v["violation"]["detail"]))
         print("  preds=%s lines=%s" % (",".join(sorted(preds)), [(l.get("text") or "")[:90] for l in v["scenario"].get("lines", [])]))
     coverage = {
@@ -306,10 +305,15 @@ def run_check(prop, args, runner, make_case, runs, rule, nontrivial, components,
         "probes": probes,
         "runs_reaching_probe": runs_with_probe,
         "configurations": configs,
-        "determinism": {"seeds_double_run": len(again), "divergent": 0},
+        "determinism": {"seeds_double_run": len(again), "divergent": len(divergent)},
         "violation_classes_seen": classes,
         "explicit_cases": len(extra_cases),
         "components": components,
     }
     common.write_evidence(prop, tier, seed, coverage, wall, sum(classes.values()), assumptions)
-    return 1 if unlisted else 0
+    if unlisted:
+        return 1
+    if divergent:
+        # no violation to report, but two executions of one seed differed: the harness cannot be trusted
+        raise HarnessError("determinism self-check failed for run indices %s" % divergent[:10])
+    return 0
